@@ -244,7 +244,7 @@ CHECKS = {
               "boundary, deletion and swap) to every corpus file and a slice of G1; G6 = every BoxLayouts.tla instance with G2/G3 applied; "
               "G7 = CrossRefs.tla, every combination of variants of the children of a traf (with a clear / cenc / cbcs init or none) and of an "
               "stbl that refer to each other (counts, offsets, group indices), deviating from the consistent baseline in <= 3 children "
-              "(thorough: all); every input runs through DecodeFile / lazy / "
+              "(thorough: 5 of the 8 traf children, all stbl and mfra combinations); every input runs through DecodeFile / lazy / "
               "DecodeFileSR under all four flag combinations and both box loops, followed by Info at four levels and Encode/EncodeSW "
               "in both modes with and without optimisation, in isolated workers under recover(), a 6 s watchdog and ulimit -v; "
               "Robust.tla's totality invariant (no panic, no fatal crash, 2 s + 20 us/byte, 16 MiB + 1024 x length) is validated by TLC "
